@@ -712,6 +712,8 @@ def sweep(scenarios, actions, full=False, nproc=None, progress=None):
     for s, b in zip(scenarios, bases):
         sites = b.get('sites') or []
         acts = actions(s) if callable(actions) else actions
+        if s.get('base_only'):
+            continue          # only the base run of this scenario is wanted
         for k in select_points(sites, full):
             for a in acts:
                 cases.append(dict(s, events=[{'k': k, 'action': a}], _site=sites[k - 1], _base_events=len(sites)))
